@@ -21,20 +21,23 @@ NETS = ["net1", "net2", "net3"]
 
 def oracle(vms):
     from ..parse import run as R, graphsnap as S
-    states, dep = {}, {}
+    states, dep, addr = {}, {}, {}
     for vm in vms:
         r = S.Resolver(C.REPO, VM_VARIANT, force_vm=vm)
         seen, edges = set(), set()
         for name, _ in R.leaf_vms(C.REPO, "leaves"):
             r.resolve(name, [vm], seen, edges)
-        st, dp = set(), set()
+        st, dp, ad = set(), set(), set()
         for k, v in r.states.items():
             for ok, sc in v["sets"].items():
                 st.add(sc)
+                # the tool addresses a state through the setup test of the same name (all..<state>)
+                if k.split("@")[0].split(".")[-1] == sc or (sc == "install" and "original" in k):
+                    ad.add(sc)
                 for ok2, sp in v["gets"].items():
                     dp.add((sc, sp))
-        states[vm], dep[vm] = st, dp
-    return states, dep
+        states[vm], dep[vm], addr[vm] = st, dp, ad
+    return states, dep, addr
 
 
 def _run_request(args):
@@ -111,12 +114,12 @@ def run(tier, seed):
     rng = random.Random(seed)
     quick = tier == "quick"
     vms = ["vm1", "vm2"]
-    states, dep = oracle(vms)
+    states, dep, addr = oracle(vms)
     with open(os.path.join(work, "MC_Update.tla"), "w") as f:
-        f.write("---- MODULE MC_Update ----\nEXTENDS Update\nMCStatesOf == %s\nMCDep == %s\n====\n"
-                % (tla({vm: set(states[vm]) for vm in vms}), tla({vm: {tuple(d) for d in dep[vm]} for vm in vms})))
+        f.write("---- MODULE MC_Update ----\nEXTENDS Update\nMCStatesOf == %s\nMCDep == %s\nMCAddr == %s\n====\n"
+                % (tla({vm: set(states[vm]) for vm in vms}), tla({vm: {tuple(d) for d in dep[vm]} for vm in vms}), tla({vm: set(addr[vm]) for vm in vms})))
     with open(os.path.join(work, "MC_Update.cfg"), "w") as f:
-        f.write("SPECIFICATION Spec\nCONSTANTS\n VMs = %s\n StatesOf <- MCStatesOf\n Dep <- MCDep\n Workers = %s\n Bogus = \"nosuchstate\"\n"
+        f.write("SPECIFICATION Spec\nCONSTANTS\n VMs = %s\n StatesOf <- MCStatesOf\n Addressable <- MCAddr\n Dep <- MCDep\n Workers = %s\n Bogus = \"nosuchstate\"\n"
                 % (tla(set(vms)), tla({1, 2} if quick else {1, 2, 3})))
         f.write("INVARIANT OnlySelected\nINVARIANT PathNotRemoved\nINVARIANT BothEndsIncluded\nINVARIANT NothingBeforeStart\nINVARIANT UnknownRejected\nCHECK_DEADLOCK FALSE\n")
     dump = os.path.join(work, "graph")
